@@ -146,6 +146,24 @@ C19Clause(st) ==
   LET c == PlainClause(st) IN
   IF c = "" THEN "" ELSE (IF st.role = "thread" THEN "each_as_alone." ELSE "final_state_correct.") \o c
 
+(***************************************************************************)
+(* C14: the "classes" of the world are nodes of the poset of passed type   *)
+(* objects: node 1 = a plain `object` annotation, node n = type[el[n]] for *)
+(* an element term, or an ordinary instance class (k = "inst").  Premise:  *)
+(* the node order the harness built equals the documented subtype relation *)
+(* SubElem.  The verdict is then the resolution rule (C02 / C01 clauses).  *)
+(***************************************************************************)
+C14Premise ==
+  LET el == Case.world.elements
+      banc == AncFromParents(Case.world.elbase)
+      IsTy(n) == el[n].k \in {"cls", "gen", "any"}
+  IN \A a, b \in 2..Len(el) :
+       (IsTy(a) /\ IsTy(b)) => ((b \in W.anc[a]) <=> SubElem(banc, el[a], el[b]))
+
+C14Clause(st) ==
+  IF ~C14Premise THEN "premise.subelem"
+  ELSE LET c1 == C01Clause(st) IN IF c1 # "" THEN c1 ELSE C02Clause(st)
+
 StepClause(st) ==
   LET c1 == IF "C01" \in Props THEN C01Clause(st) ELSE ""
       c2 == IF "C02" \in Props THEN C02Clause(st) ELSE ""
@@ -153,8 +171,10 @@ StepClause(st) ==
       c6 == IF "C06" \in Props THEN C06Clause(st) ELSE ""
       c18 == IF "C18" \in Props THEN C18Clause(st) ELSE ""
       c19 == IF "C19" \in Props THEN C19Clause(st) ELSE ""
+      c14 == IF "C14" \in Props THEN C14Clause(st) ELSE ""
   IN IF c18 # "" THEN "C18:" \o c18
      ELSE IF c19 # "" THEN "C19:" \o c19
+     ELSE IF c14 # "" THEN "C14:" \o c14
      ELSE IF c1 # "" THEN "C01:" \o c1
      ELSE IF c2 # "" THEN "C02:" \o c2
      ELSE IF c7 # "" THEN "C07:" \o c7
